@@ -1,6 +1,7 @@
 package c13
 
 import (
+	"os"
 	"testing"
 
 	"verif/harness/pbt"
@@ -8,7 +9,15 @@ import (
 
 func init() { pbt.Property("C13") }
 
-func TestMain(m *testing.M)   { pbt.Main(m) }
+func TestMain(m *testing.M) {
+	if os.Getenv(earlyChildEnv) != "" {
+		// child process of the probe of finding start-reads-run-channel-unlocked (early_test.go): one
+		// fixed case, outside the framework; whatever the race detector says goes to the parent
+		earlyChild()
+		os.Exit(0)
+	}
+	pbt.Main(m)
+}
 func TestProps(t *testing.T)  { pbt.RunAll(t) }
 func TestReplay(t *testing.T) { pbt.ReplayAll(t) }
 
